@@ -246,7 +246,7 @@ PROPS = {
     },
     "C09": {
         "n": {"quick": 200, "thorough": 5000},
-        "cone": ["Bytes", "BytesLemmas", "Regex", "Generated", "Netconf", "NetconfLemmas", "NcSession", "NcSessionLemmas", "DecideLang", "GeneratedSkel", "Decide"],
+        "cone": ["Bytes", "BytesLemmas", "Regex", "Generated", "Netconf", "NetconfLemmas", "NcSession", "NcSessionLemmas", "DecideLang", "GeneratedSkel", "Decide", "DecideLoops", "NetconfSrc"],
         "rx": True,
         "rule": NC_RULE + " The 4 x 3 table {base:1.0, base:1.1 advertised} x {preferred none/1.0/1.1} exhaustively first, then random extra capabilities "
                 "(incl. near-miss URNs), nc: prefix, layouts, session-ids up to 2^64-1, missing / truncated hello; non-trivial = every case.",
